@@ -86,9 +86,11 @@ func (obj JsonWebEncryption) mergedHeaders(recipient *recipientInfo) rawHeader {
 func (obj JsonWebEncryption) computeAuthData() []byte {
 	var protected string
 
-	if obj.original != nil {
+	// The protected header is optional, for example, a JSON object with only
+	// the unprotected header, then the protected is empty string.
+	if obj.original != nil && obj.original.Protected != nil {
 		protected = obj.original.Protected.base64()
-	} else {
+	} else if obj.original == nil && obj.protected != nil {
 		protected = base64URLEncode(mustSerializeJSON((obj.protected)))
 	}
 
